@@ -187,7 +187,14 @@ impl fmt::Display for CompoundVariable {
                 },
                 // a name with a leading underscore would read back as a literal
                 // name fragment when written bare
-                PreExp::Variable(name) if !name.value().starts_with('_') => name.value().clone(),
+                // (and a literal name with an underscore inside would read back
+                // as two indexes)
+                PreExp::Variable(name)
+                    if !name.value().starts_with('_')
+                        && !crate::parser::il::il_exp::needs_escape(name.value()) =>
+                {
+                    name.value().clone()
+                }
                 _ => format!("{{{}}}", i),
             })
             .collect::<Vec<String>>();
